@@ -1,0 +1,17 @@
+//go:build verif
+
+package dataplane
+
+// VerifPktRing exposes the unexported pktRing to the verification harness.
+type VerifPktRing struct{ pr *pktRing }
+
+func VerifNewPktRing() *VerifPktRing { return &VerifPktRing{pr: newPktRing()} }
+
+func (v *VerifPktRing) Write(pkt []byte, block bool) int { return v.pr.Write(pkt, block) }
+
+func (v *VerifPktRing) Read(block bool) ([]byte, int) { return v.pr.Read(block) }
+
+func (v *VerifPktRing) Close() { v.pr.Close() }
+
+// VerifPktRingSizes returns (batchSize, ringSize).
+func VerifPktRingSizes() (int, int) { return batchSize, ringSize }
